@@ -100,6 +100,10 @@ def gen_step(rng, sh, ops_enabled):
             sh.inputs = ins
         return ['set_inputs', ins]
     if op == 'add_inputs':
+        if invalid or rng.random() < 0.15:
+            # a new label listed twice (or a label that exists already): refused, nothing added
+            l = sh.fresh(rng)
+            return ['add_inputs', rng.choice([[l, l], [l, sh.fresh(rng), l], [rng.choice(labels)] if labels else [l, l]])]
         ls = [sh.fresh(rng) for _ in range(rng.randint(1, 2))]
         for l in ls:
             sh.gates[l] = ('INPUT', [])
